@@ -230,6 +230,32 @@ class Backend:
                 edges.append(canon([ends, sorted([k, v] for k, v in d.items())]))
         return {"nodes": nodes, "edges": sorted(edges)}
 
+    def stored(self, g):
+        """attribute dicts of the nodes the store keeps for graph id g, *raw*: on the shared store the nodes whose GraphID is g,
+        on the disjoint store whatever sits under the key g (whatever GraphID those nodes carry)"""
+        if self.flavour == "shared":
+            return [d for n, d in self.storage.graphs.nodes(data=True) if d.get(GRAPH_ID) == g]
+        if g not in self.storage.graphs:
+            return []
+        return [d for n, d in self.storage.graphs[g].nodes(data=True)]
+
+    def homed(self, g):
+        """every node kept for g carries GraphID == g (always true on the shared store; on the disjoint store a GraphID
+        rewrite leaves the node under its old key, invisible to lookups: DStore.Homed)"""
+        return all(d.get(GRAPH_ID) == g for d in self.stored(g))
+
+    def keyed(self):
+        """the whole store without internal ids (wire form of Drivers/C05 arefToJson / Store.absS): every node dictionary,
+        every link between the keys (GraphID value, NodeID value) of its ends; "<missing>" = attribute absent"""
+        nodes, edges = [], []
+        for key, G in self._graphs():
+            def k(n):
+                d = G.nodes[n]
+                return [d.get(GRAPH_ID, "<missing>"), d.get(NODE_ID, "<missing>")]
+            nodes += [[[a, v] for a, v in d.items()] for n, d in G.nodes(data=True)]
+            edges += [[k(a), k(b), [[x, v] for x, v in d.items()]] for a, b, d in G.edges(data=True)]
+        return {"nodes": nodes, "edges": edges}
+
     def internal_ids(self):
         return [(key, n) for key, G in self._graphs() for n in G.nodes]
 
@@ -261,6 +287,12 @@ def canon_raw(r):
     o = one(r)
     o["next"] = r["next"]
     return o
+
+
+def canon_keyed(r):
+    """canonical form of Backend.keyed() / the driver's ARef JSON: nodes as sorted property lists, links with sorted ends"""
+    return {"nodes": sorted((_cprops(p) for p in r["nodes"]), key=canon),
+            "edges": sorted(([sorted([a, b], key=canon), _cprops(p)] for a, b, p in r["edges"]), key=canon)}
 
 
 LIST_OPS = {"list_all_node_ids", "nodes_by_class", "nodes_by_class_and_type", "find_matching_nodes"}
@@ -492,12 +524,18 @@ class Shadow:
         return req
 
 
-def gen_history(rng, length, ngraphs=3, nnodes=4, **kw):
+def gen_history(rng, length, ngraphs=3, nnodes=4, scenario=0.0, **kw):
     gids = ["g%d" % (i + 1) for i in range(ngraphs)]
     nids = ["n%d" % (i + 1) for i in range(nnodes)]
     h, sh = [], Shadow()
-    # seed the store so that most operations find something to act on
-    for g in gids[:max(2, ngraphs - 1)]:
+    if scenario and rng.random() < scenario:
+        _, h = gen_scenario(rng, gids, nids)
+        for r in h:
+            sh.note(r)
+        length = max(length, len(h) + 4)
+    else:
+      # seed the store so that most operations find something to act on
+      for g in gids[:max(2, ngraphs - 1)]:
         if rng.random() < 0.7:
             ig = gen_igraph(rng, nids, allow_bad=False)
             h.append(["add_graph", g, ig])
@@ -506,6 +544,63 @@ def gen_history(rng, length, ngraphs=3, nnodes=4, **kw):
         h.append(sh.aim(rng, gen_op(rng, gids, nids, **kw), gids))
         sh.note(h[-1])
     return h
+
+
+def gen_scenario(rng, gids, nids):
+    """structured openings (each stands for a class of histories random draws rarely reach):
+    regrow   - import A, import B right behind it, grow A node by node, re-import A under its own id with at least as many
+               nodes (A's released internal ids are not one block any more);
+    cloneon  - clone onto an id that already holds a graph, then change both;
+    delall   - use ids, importer.delete_all_graphs(), use the same ids again (import, add_node, clone target);
+    foreign  - address a graph with a node id that only another graph (its clone source) still has"""
+    kind = rng.choice(["regrow", "regrow", "cloneon", "delall", "delall", "foreign", "foreign"])
+    a, b = rng.sample(gids, 2)
+    c = rng.choice([g for g in gids if g not in (a, b)] or [b])
+
+    def ig(n, first=0):
+        nodes = [{NODE_ID: nids[(first + i) % len(nids)] if i < len(nids) else "m%d" % i, CLASS: rng.choice(CLASSES)} for i in range(n)]
+        edges = [[i, i + 1, {CLASS: rng.choice(RELS)}] for i in range(n - 1)]
+        return {"nodes": nodes, "edges": edges}
+
+    h = []
+    if kind == "regrow":
+        n0 = rng.randint(1, 3)
+        h += [["add_graph", a, ig(n0)], ["add_graph", b, ig(rng.randint(1, 3), 1)]]
+        grown = n0
+        for i in range(rng.randint(1, 2)):
+            h.append(["add_node", a, "x%d" % i, rng.choice(CLASSES), None])
+            grown += 1
+        if rng.random() < 0.3:
+            h.append(["delete_node", a, nids[0]])
+        if rng.random() < 0.5:
+            h.append(["clone", a, a])                       # what load(serialize()) does: the graph replaces itself
+        else:
+            h.append([rng.choice(["add_graph", "add_graph"]), a, ig(rng.randint(max(1, grown - 1), grown + 1))])
+        h += [["list_all_node_ids", b], ["list_all_node_ids", a]]
+    elif kind == "cloneon":
+        h += [["add_graph", a, ig(rng.randint(1, 3))], ["add_graph", b, ig(rng.randint(1, 3), 2)], ["clone", a, b],
+              ["add_node", b, "x0", rng.choice(CLASSES), None], ["delete_node", a, nids[0]],
+              ["update_nodes_property", b, "p", "y"], ["list_all_node_ids", a], ["list_all_node_ids", b]]
+    elif kind == "delall":
+        h += [["add_graph", a, ig(rng.randint(1, 3))], ["add_node", b, nids[0], rng.choice(CLASSES), None],
+              rng.choice([["clone", a, c], ["add_node", c, nids[1], "Link", None]]),
+              ["delete_all_graphs", "*"]]
+        tail = [["add_graph", a, ig(rng.randint(1, 3), 1)], ["add_node", b, nids[1], rng.choice(CLASSES), None],
+                ["add_graph", b, ig(2)], ["clone", a, c], ["add_node", c, nids[2], "Link", None], ["graph_exists", a]]
+        rng.shuffle(tail)
+        h += tail[:rng.randint(3, 6)] + [["clone", a, b], ["list_all_node_ids", c]]
+    else:
+        n = rng.randint(2, 3)
+        h += [["add_graph", a, ig(n)], ["clone", a, c], ["delete_node", c, nids[n - 1]]]
+        x = nids[n - 1]
+        tail = [["delete_node", c, x], ["update_node_property", c, x, "p", "y"], ["unset_node_property", c, x, "Name"],
+                ["add_link", c, nids[0], "has", x, None], ["update_node_properties", c, x, {"q": "x"}],
+                ["get_node_properties", c, x], ["update_link_property", c, nids[n - 2], x, "has", "p", "x"],
+                ["update_link_property", c, nids[n - 2], x, "connects", "p", "x"], ["node_exists", c, x, "Link"],
+                ["add_node", b, x, "Link", None], ["delete_node", b, nids[0]]]
+        rng.shuffle(tail)
+        h += tail[:rng.randint(3, 7)] + [["get_node_properties", a, x]]
+    return kind, h
 
 
 def target_of(req):
